@@ -171,7 +171,9 @@ class Profiles:
                 # even if cssutils is not needed. Thus, lazily compile them the
                 # first time they're needed.
                 # https://web.archive.org/web/20200701035537/https://bitbucket.org/cthedot/cssutils/issues/69)
-                value = util.LazyRegex('^(?:%s)$' % value, re.I)
+                # ASCII: CSS keywords and digits are ASCII only, and a non
+                # ASCII character matches {nonascii} only (not \w as well)
+                value = util.LazyRegex('^(?:%s)$' % value, re.I | re.A)
             dictionary[key] = value
 
         return dictionary
@@ -554,8 +556,8 @@ properties[Profiles.CSS_LEVEL_2] = {
     'margin': r'{margin-width}(\s+{margin-width}){0,3}|inherit',
     'max-height': r'{length}|{percentage}|none|inherit',
     'max-width': r'{length}|{percentage}|none|inherit',
-    'min-height': r'{length}|{percentage}|none|inherit',
-    'min-width': r'{length}|{percentage}|none|inherit',
+    'min-height': r'{length}|{percentage}|inherit',
+    'min-width': r'{length}|{percentage}|inherit',
     'orphans': r'{integer}|inherit',
     'overflow': r'{overflow}',
     'padding-top': r'{padding-width}|inherit',
